@@ -1,7 +1,7 @@
 #!/bin/bash
 # usage: confirm_mutation.sh <id>   (in /tmp/mut/<id>: wt = worktree with the change applied, demo = demonstration module)
 # Confirms: compiles, existing suite passes with the change, demo fails with and passes without the change.
-id="$1"; d=/tmp/mut/$id
+id="$1"; d=${MUTDIR:-/tmp/mut}/$id
 export GOFLAGS=-mod=mod GOPROXY=off GOSUMDB=off GOTOOLCHAIN=local
 cd $d/wt || exit 2
 # the delivered patch.diff is canonical: reset the scratch worktree and apply exactly that
